@@ -316,7 +316,8 @@ def knn_predict_rows(opf, it, rows, which):
         Xq = np.array([it.X[r] for r in rows], dtype=float)
         out = opf.predict(Xq)
     else:
-        out = opf.predict(np.zeros((len(rows), 1)), np.array(rows))
+        _, idx = embed_matrix(it.D)
+        out = opf.predict(np.zeros((len(rows), 1)), idx[np.array(rows, dtype=int)])
     if which == "knn":
         return [int(v) for v in out], None
     return [int(v) for v in out[0]], [int(v) for v in out[1]]
